@@ -333,6 +333,12 @@ pub fn run_ipm(run: usize, p: &Problem, opts: &RunOpts) -> RunOut {
     let st2 = st.clone();
     let res = catch_unwind(AssertUnwindSafe(|| {
         let mut solver = DefaultSolver::new(&P, &p.q, &A, &p.b, &cones, st2);
+        // "+touch": the same q and b are written once more through the update API before the solve (flushes the cached
+        // norms and goes through the scaling code of the update path); the problem solved is the same
+        if p.tag.contains("+touch") && solver.is_data_update_allowed() && p.b.iter().all(|v| v.abs() < bound) {
+            solver.update_q(&p.q).expect("update_q with the same data");
+            solver.update_b(&p.b).expect("update_b with the same data");
+        }
         if opts.capture_print {
             use clarabel::io::ConfigurablePrintTarget;
             solver.print_to_buffer();
